@@ -11,7 +11,7 @@ import verif, sizes_c03
 ck = verif.Check("C03")
 rng = ck.rng
 SIZE_MAX = 2 ** 64 - 1
-MODEL_SMALL_N = 300          # the model is always run up to this size; above only on radix-only paths (mem 0 / SIZE_MAX)
+MODEL_SMALL_N = 800          # the model is always run up to this size; above only on radix-only paths (mem 0 / SIZE_MAX)
 
 translator_error = None
 try:
@@ -20,11 +20,12 @@ except RuntimeError as e:
     translator_error = str(e)
 pr = ck.prove() if translator_error is None else None
 
-# ---------------------------------------------------------------- harness build (three parts in parallel)
+# ---------------------------------------------------------------- harness build (four parts in parallel)
 builds = {}
+PARTS = (1, 2, 4, 8)          # harness compiled in four parts: reps 0,1 / 2 / 3,4 / 5,6
 def _build(part):
     builds[part] = ck.build_cpp("c03_harness_%d" % part, ["harness/C03/sort_harness.cpp"], extra=["-DC03_PART=%d" % part])
-ths = [threading.Thread(target=_build, args=(p,)) for p in (1, 2, 4)]
+ths = [threading.Thread(target=_build, args=(p,)) for p in PARTS]
 for t in ths: t.start()
 drv, dlog = ck.ocaml_driver("C03")
 for t in ths: t.join()
@@ -66,7 +67,7 @@ def gen_strings(n, shape, alpha):
 
 SHAPES = ["random", "random", "random", "chain", "dups", "sharedprefix", "allequal", "empties"]
 MEMS = [0, 1, 64, 4096, 10 ** 5, 10 ** 7, SIZE_MAX]
-REPNAMES = ["UChar", "CUChar", "StdString", "UPtr", "Suffix"]
+REPNAMES = ["UChar", "CUChar", "StdString", "UPtr", "Suffix", "Char", "CChar"]
 sizes = getattr(ck, "c03_sizes", {})
 
 def threshold_mems(rep, lcp, n):
@@ -80,21 +81,26 @@ def threshold_mems(rep, lcp, n):
     out = []
     for t in ts: out += [t - 1, t, t + 1]
     # enough for the top-level step but only k more stack levels: forces the in-loop multikey_quicksort fall-back
+    # (a seeded change was only visible for use+3*step+1 <= memory < use+4*step): sweep the whole band k = 1..9, its edges included
     for use, st in ((base + n * u8 + n * sstr, ce2), (base + n * u8, ci2), (base + n * sstr, ce0)):
-        for k in (3, 4, 6): out.append(use + k * st + rng.below(st))
+        for k in range(1, 10):
+            out += [use + k * st - 1, use + k * st, use + k * st + 1, use + k * st + rng.below(st), use + k * st + rng.below(st)]
     return out
 
 def gen_small():
     algo = rng.choice([0, 0, 0, 1, 2, 3, 4, 5, 6, 6, 7, 7])
-    rep = rng.choice([0, 0, 1, 2, 2, 3, 4])
+    rep = rng.choice([0, 0, 1, 2, 2, 3, 4, 5, 6])
     lcp = rng.below(2)
     r = rng.below(100)
     if r < 45: n = rng.below(41)
-    elif r < 70: n = rng.choice([31, 32, 33])
-    elif r < 92: n = 34 + rng.below(90)
-    else: n = 130 + rng.below(170)
-    shape = rng.choice(SHAPES)
+    elif r < 68: n = rng.choice([31, 32, 33])
+    elif r < 89: n = 34 + rng.below(90)
+    elif r < 97: n = 130 + rng.below(170)
+    else: n = 300 + rng.below(500)
+    shape = rng.choice(SHAPES) if n < 300 else rng.choice(["sharedprefix", "sharedprefix", "random", "dups"])
     aname, alpha = rng.choice(ALPHABETS)
+    if rep in (5, 6):            # CharStringSet / CCharStringSet compare `char` as signed: only 7-bit bytes (see report / known finding)
+        aname, alpha = rng.choice([a for a in ALPHABETS if max(a[1]) < 0x80])
     if rng.chance(1, 3): mem = rng.choice(MEMS)
     else:
         tm = threshold_mems(rep, lcp, n)
@@ -108,11 +114,15 @@ def gen_small():
             text = bytes(alpha[rng.below(len(alpha))] for _ in range(n))
         return mkcase(algo, rep, 0, lcp, mem, 0, [text]), (algo, rep, lcp, mem, n, shape, aname)
     strs = gen_strings(n, shape, alpha)
-    if algo != 0 and rng.chance(1, 4):
-        depth = 1 + rng.below(5)
+    if algo != 0 and rng.chance(1, 3):
+        depth = (1 + rng.below(5)) if rng.chance(3, 4) else (6 + rng.below(40))
         p = bytes(alpha[rng.below(len(alpha))] for _ in range(depth))
         strs = [p + s for s in strs]
-    return mkcase(algo, rep, rng.below(10), lcp, mem, depth, strs), (algo, rep, lcp, mem, n, shape, aname)
+    if algo == 0:
+        ov = rng.below(10) + (10 if mem == 0 and rng.chance(1, 2) else 0)      # >= 10: the memory argument is omitted
+    else:
+        ov = rng.choice([0, 0, 1, 2]) if algo >= 4 else rng.choice([0, 0, 1])   # view: plain / sub() with guards / shadow+flip+copy_back
+    return mkcase(algo, rep, ov, lcp, mem, depth, strs), (algo, rep, lcp, mem, n, shape, aname)
 
 def gen_big(n, kind, algo, rep, lcp, mem):
     if kind == "abc": strs = [rstr(b"abc", 12) for _ in range(n)]
@@ -132,10 +142,32 @@ if ck.replay:
 for c in corpus:
     f = c.split()
     cases.append(c); meta.append((int(f[0]), int(f[1]), int(f[3]), int(f[4]), int(f[6]), "corpus", "corpus"))
+# GenericCharStringSet<char> compares characters as (signed) char: with bytes >= 0x80 insertion sort / multikey quicksort
+# order them as negative, the radix steps as unsigned.  Reported as a finding; the witness runs only once it is listed.
+KF_KEY = "CharStringSet-signed-char-order"
+kf_idx = set()
+if not ck.replay and any(k == KF_KEY for k, _ in ck.known):
+    kf_idx.add(len(cases)); cases.append("7 5 0 0 0 0 2 80 10"); meta.append((7, 5, 0, 0, 2, "corpus", "corpus"))
 ncorpus = len(cases)
 if not ck.replay:
     for _ in range(30000 if ck.thorough() else 3500):
         c, m = gen_small(); cases.append(c); meta.append(m)
+    # bytes >= 0x80 through every public overload (memory passed and omitted) and every detail sorter / set / view
+    HB = b"\x7f\x80\x81\xfe\xff\x01"
+    for lcp in (0, 1):
+        for ov in range(20):
+            for rp in (0, 1, 2):
+                n = rng.choice([20, 40, 70])
+                strs = [rstr(HB, 4) for _ in range(n)]
+                cases.append(mkcase(0, rp, ov, lcp, 0 if ov >= 10 else rng.choice(MEMS), 0, strs)); meta.append((0, rp, lcp, 0, n, "highbyte", "highbyte"))
+        for algo in range(1, 8):
+            for rp in (0, 1, 2, 3):
+                for view in ((0, 1, 2) if algo >= 4 else (0, 1)):
+                    n = rng.choice([20, 40, 70]); mem = rng.choice(MEMS)
+                    strs = [b"\xff\x80" + rstr(HB, 3) for _ in range(n)]
+                    cases.append(mkcase(algo, rp, view, lcp, mem, 2, strs)); meta.append((algo, rp, lcp, mem, n, "highbyte", "highbyte"))
+            text = bytes(HB[rng.below(len(HB))] for _ in range(60))
+            cases.append(mkcase(algo, 4, 0, lcp, 0, 0, [text])); meta.append((algo, 4, lcp, 0, 60, "highbyte", "highbyte"))
     # (n, generator, algorithm, representation, lcp, memory); the model runs on the mem = 0 / SIZE_MAX ones
     big = [(65535, "abc", 0, 0, 1, 0), (65536, "nested", 0, 0, 1, 0), (65537, "full", 0, 2, 1, SIZE_MAX),
            (65536, "abc", 5, 1, 1, 0),
@@ -178,24 +210,24 @@ def run_harness(part, idxs, out):
 
 if translator_error is not None:
     pass
-elif any(builds[p][0] is None for p in (1, 2, 4)):
-    log = [builds[p][1] for p in (1, 2, 4) if builds[p][0] is None][0]
+elif any(builds[p][0] is None for p in PARTS):
+    log = [builds[p][1] for p in PARTS if builds[p][0] is None][0]
     ck.violation("correspondence harness does not compile against /repo", {"correspondence": "harness/C03/sort_harness.cpp", "log": log[-2500:]}, no_input=True)
 elif drv is None:
     ck.violation("extracted model/driver does not build", {"correspondence": "ocaml/C03_driver.ml", "log": dlog[-2500:]}, no_input=True)
 else:
     repof = [c.split(" ", 2)[1] for c in cases]
     parts = {1: [i for i, r in enumerate(repof) if r in ("0", "1")], 2: [i for i, r in enumerate(repof) if r == "2"],
-             4: [i for i, r in enumerate(repof) if r in ("3", "4")]}
+             4: [i for i, r in enumerate(repof) if r in ("3", "4")], 8: [i for i, r in enumerate(repof) if r in ("5", "6")]}
     hout = {}
-    ths = [threading.Thread(target=run_harness, args=(p, parts[p], hout)) for p in (1, 2, 4)]
+    ths = [threading.Thread(target=run_harness, args=(p, parts[p], hout)) for p in PARTS]
     for t in ths: t.start()
     for t in ths: t.join()
     tick('harness_done')
     crashed = []
-    for p in (1, 2, 4):
+    for p in PARTS:
         rc, o = hout[p]
-        lines = [l for l in o.splitlines() if l.startswith("ids:")]
+        lines = [l for l in o.splitlines() if l.startswith("ids:") or l.startswith("APIFAIL:")]
         for k, i in enumerate(parts[p]):
             if k < len(lines): impl[i] = lines[k]
         if rc != 0:
@@ -250,11 +282,18 @@ else:
         for i, r in enumerate(res):
             if r is None: continue
             algo, rep, lcp, mem, n, shape, aname = meta[i]
-            desc = "%s on %s%s, n=%d, memory=%d" % (ALGON[algo], REPNAMES[rep], " with LCP" if lcp else "", n, mem)
+            ovf = int(cases[i].split(" ", 3)[2])
+            desc = "%s on %s%s, n=%d, memory=%d, %s" % (ALGON[algo], REPNAMES[rep], " with LCP" if lcp else "", n, mem,
+                                                        ("overload %d%s" % (ovf % 10, " (memory omitted)" if ovf >= 10 else "")) if algo == 0 else "view %d" % ovf)
             short = cases[i] if len(cases[i]) < 200000 else cases[i][:200000]
             if r["chk"] != "1":
+                if i in kf_idx:
+                    ck.violation("%s: bytes >= 0x80 are ordered as signed char" % desc, {"case": short, "impl_output": (impl[i] or "")[:400]}, key=KF_KEY)
+                    continue
                 found = True
                 what = ("output is not a sorted permutation of the input objects" if r["sp"] != "1" else "lcp array is not the exact LCP of neighbours")
+                if (impl[i] or "").startswith("APIFAIL"):
+                    what = "string_ptr.hpp / string_set.hpp API check failed, or guard strings / lcp cells outside the sorted view were modified: " + impl[i][:200]
                 if ck.violations < 4:
                     ck.violation("%s: %s" % (desc, what), {"case": short, "impl_output": (impl[i] or "")[:4000], "verdict": r,
                                                            "replay_cmd": "bin/check C03 --replay <this file>"})
@@ -283,6 +322,40 @@ if translator_error is not None and not found:
 if pr is not None and not pr["ok"]:
     ck.proof_broken(found)
 
+# ---------------------------------------------------------------- API surface actually exercised by this run
+OVL = ["unsigned char**, size_t", "char**, size_t", "const unsigned char**, size_t", "const char**, size_t", "std::vector<char*>&",
+       "std::vector<unsigned char*>&", "std::vector<const char*>&", "std::vector<const unsigned char*>&", "std::string*, size_t", "std::vector<std::string>&"]
+SETS = ["UCharStringSet", "CUCharStringSet", "StdStringSet", "UPtrStdStringSet", "StringSuffixSet", "CharStringSet", "CCharStringSet"]
+VIEWS = ["StringPtr/StringLcpPtr over the array", "strptr.sub(offset, n) of a larger array (+ size/active/fill_lcp/get_lcp/set_lcp/lcp)",
+         "StringShadow(Lcp)Ptr: add_shadow + flip + copy_back (+ flipped/shadow/sub)"]
+api = {}
+for fn in ("sort_strings", "sort_strings_lcp"):
+    for o in OVL:
+        for m in ("memory passed", "memory omitted (default 0)"):
+            api["tlx::%s(%s%s) [%s]" % (fn, o, ", std::uint32_t* lcp" if fn.endswith("lcp") else "", m)] = 0
+for a in ALGON[1:]:
+    for s in SETS:
+        for lc in ("StringPtr", "StringLcpPtr<uint32_t>"):
+            api["%s(%s<%s>)" % (a, lc, s)] = 0
+for v in VIEWS: api["string_ptr.hpp view: " + v] = 0
+api["StringSuffixSet::Initialize"] = 0
+for i, c in enumerate(cases):
+    if res[i] is None: continue
+    f = c.split(" ", 4); algo, rp, ov, lc = int(f[0]), int(f[1]), int(f[2]), int(f[3])
+    if algo == 0 and rp <= 2:
+        o = (8 + ov % 2) if rp == 2 else min(ov % 10, 7)
+        api["tlx::%s(%s%s) [%s]" % ("sort_strings_lcp" if lc else "sort_strings", OVL[o], ", std::uint32_t* lcp" if lc else "",
+                                    "memory omitted (default 0)" if ov >= 10 else "memory passed")] += 1
+    else:
+        api["%s(%s<%s>)" % (ALGON[3 if algo == 0 else algo], "StringLcpPtr<uint32_t>" if lc else "StringPtr", SETS[rp])] += 1
+        api["string_ptr.hpp view: " + VIEWS[0 if (algo == 0 or rp == 4) else ov]] += 1
+    if rp == 4: api["StringSuffixSet::Initialize"] += 1
+api_surface = {"entries_called": api, "entries_never_called_in_this_run": sorted(k for k, v in api.items() if v == 0),
+               "not_driven_directly": ["StringSetBase::get_uint32/get_uint64/get_key/get_key_at (used by the parallel sample sort only)",
+                                       "StringSetBase::check_order/print/get_string (debugging aids)",
+                                       "radixsort_CE0..CE3 through StringShadow(Lcp)Ptr (they require StringPtr::add_shadow; not instantiable)",
+                                       "CharStringSet/CCharStringSet with bytes >= 0x80 (signed char comparison: reported finding " + KF_KEY + ")"]}
+
 # distinct non-trivial: distinct case text with at least two different strings in the collection
 distinct = set()
 for i, c in enumerate(cases):
@@ -304,6 +377,7 @@ ck.finish({
     "samples": samples,
     "input_distribution": stats,
     "agreement": agree,
+    "api_surface": api_surface,
     "model_small_n": MODEL_SMALL_N,
     "phase_seconds": _T,
 }, assumptions=[
